@@ -13,7 +13,7 @@ ASSUMPTIONS = ["ties resolved as numpy.argmin does (first index); the claim only
                "real arithmetic: an algebraically equal |x|^2-2xm+|m|^2 rewrite is indistinguishable here (cancellation at large offsets is a float-only effect, outside the claim)"]
 EXHAUSTIVE = ["all argmin paths", "all row chunkings of the Dask input", "single sample and batch"]
 OUTSIDE = ["K,D,N beyond those listed", "rounding / cancellation (probed concretely on the real code with offsets 1e3..1e8, as witness search only)"]
-SIZES = {"quick": [(2, 1, 3), (2, 2, 3)], "thorough": [(2, 1, 3), (2, 2, 3), (3, 1, 3), (2, 2, 4), (3, 2, 4)]}
+SIZES = {"quick": [(2, 1, 3), (2, 2, 3)], "thorough": [(2, 1, 3), (2, 2, 3), (3, 1, 3), (2, 2, 4)]}
 
 
 def bounds(tier):
@@ -146,6 +146,8 @@ def jobs(tier):
         for fl in ("scalar", "matrix"):
             out.append(("gmm@K%dD%dN%d-%s" % (K, D, N, fl), "job_gmm", dict(K=K, D=D, N=N, chunks=None, floor=fl)))
         for comp in compositions(N):
+            if (K, D, N) not in SIZES["quick"] and len(comp) not in (2, N):
+                continue
             nm = "+".join(map(str, comp))
             out.append(("assign-dask@K%dD%dN%d-%s" % (K, D, N, nm), "job_assign_dask", dict(K=K, D=D, N=N, chunks=comp)))
             out.append(("varw-dask@K%dD%dN%d-%s" % (K, D, N, nm), "job_varw", dict(K=K, D=D, N=N, chunks=comp)))
